@@ -2,6 +2,9 @@
 from hypothesis import strategies as st
 
 
+NAN = float('nan')
+
+
 def mk(spec):
     k = spec[0]
     if k == 'int':
@@ -18,6 +21,8 @@ def mk(spec):
         return None
     if k == 'nested':
         return (spec[1], (str(spec[1]) + 'x', float(spec[1])))
+    if k == 'nan':
+        return NAN if spec[1] == 0 else float('nan')     # the shared object, or a fresh one: both differ from themselves by !=
     raise ValueError(spec)
 
 
